@@ -29,6 +29,10 @@ def setup_worker():
     net.install()
     seams.rebind(mining, 'time', net.clock)
     uni = ledger.tx_universe('easy')
+    # save_wallet writes wallet.json(.new) into the cwd: one private directory per worker process
+    d = os.path.join(os.getcwd(), 'c12-%d' % os.getpid())
+    os.makedirs(d, exist_ok=True)
+    os.chdir(d)
     tpl = os.path.join(os.getcwd(), 'c12-template-%d.db' % os.getpid())
     if os.path.exists(tpl):
         os.remove(tpl)
@@ -172,6 +176,7 @@ def one_run(hist, pool_names, off, inter, uni_kind='easy'):
             mw.handle_scrypt_output_message(0, sh)
         except Exception as e:
             escaped = ('result', e)
+        node.flush()         # the selector loop would now write out what the handler queued
         s_, h_, txs_ = mw.mining_args[0]
         from skepticoin.datatypes import Block, BlockHeader
         ev = consensus.construct_pow_evidence_after_scrypt(sh, served_at_request[0], s_, h_, txs_)
@@ -198,7 +203,7 @@ def one_run(hist, pool_names, off, inter, uni_kind='easy'):
         own_ok = False
         own_err = repr(e)[:80]
     if tags or not own_ok:
-        bad.append(('mined-block-fails-validation:' + '+'.join(sorted(tags) or ['node-only']),
+        bad.append(('mined-block-fails-validation:' + '+'.join(sorted(tags) or ['node-only']) + '@clock=head%+d' % off,
                     "the block assembled and found at clock = head time %+d s fails %s" % (
                         off, ("full validation: " + ', '.join(sorted(tags))) if tags else ("the node's own validation: " + own_err))))
     fees = 0
@@ -270,10 +275,13 @@ def configs(ctx):
 
 
 def _worker(chunk):
+    _W.clear()          # forked from the parent: take a private directory / template
+    setup_worker()
     res = []
     st = {'runs': 0, 'found': 0, 'skipped': 0}
     for cfg in chunk:
-        bad, info = one_run(*cfg)
+        with contextlib.redirect_stdout(io.StringIO()):
+            bad, info = one_run(*cfg)
         st['runs'] += 1
         if info.get('found'):
             st['found'] += 1
@@ -318,5 +326,6 @@ def run(ctx):
 
 def replay(data, ctx):
     setup_worker()
-    bad, info = one_run(tuple(tuple(p) for p in data['hist']), tuple(data['pool']), data['off'], data['inter'])
+    with contextlib.redirect_stdout(io.StringIO()):
+        bad, info = one_run(tuple(tuple(p) for p in data['hist']), tuple(data['pool']), data['off'], data['inter'])
     return list(bad or [])
